@@ -72,3 +72,20 @@ fn c02_negotiation_values() {
     kani::cover!(p == 8, "hybrid-ex");
     forget(r);
 }
+
+/// C17/C04: the negotiation request body for every flag byte and protocol mask
+#[kani::proof]
+#[kani::unwind(12)]
+#[kani::stub(std::collections::hash_map::RandomState::new, fixed_random_state)]
+fn c17_neg_req_bytes() {
+    let flag: u8 = kani::any();
+    let protocols: u32 = kani::any();
+    let m = rdp_neg_req(Some(NegotiationType::TypeRDPNegReq), Some(protocols), Some(flag));
+    let mut w = FixedWriter::<16>::new();
+    let r = m.write(&mut w);
+    assert!(r.is_ok() && w.len == 8 && m.length() == 8, "RDP_NEG_REQ is 8 bytes");
+    assert!(w.out[0] == 1 && w.out[1] == flag && w.out[2] == 8 && w.out[3] == 0, "type, flags, length");
+    assert!(w.out[4] == protocols as u8 && w.out[5] == (protocols >> 8) as u8 && w.out[6] == (protocols >> 16) as u8 && w.out[7] == (protocols >> 24) as u8, "requestedProtocols little endian");
+    kani::cover!(flag == 1 && protocols == 3, "restricted admin, SSL|HYBRID");
+    forget(r); forget(m);
+}
